@@ -101,6 +101,12 @@ def main() -> int:
     except BaseException as e:  # noqa: BLE001
         out = {"returned": False, "error": f"{type(e).__name__}: {e}"[:160]}
     signal.signal(signal.SIGTERM, signal.SIG_IGN)
+    # the worker PROCESS ends here (its task threads die with it): what it leaves behind is what counts
+    try:
+        rec0 = o.get_invocation_status_record(inv.invocation_id)
+        out.update(status_at_exit=rec0.status.value, owner_at_exit=rec0.runner_id)
+    except Exception as e:  # noqa: BLE001
+        out.update(status_at_exit=f"error:{type(e).__name__}", owner_at_exit=None)
     time.sleep(1.2)     # the body (1 s) ends
     try:
         app.state_backend.wait_for_all_async_operations()
